@@ -3,6 +3,8 @@ import Srctools.Proofs.C16Bin
 import Srctools.Proofs.C16Lazy
 import Srctools.Proofs.C16LazyHist
 import Srctools.Proofs.C16KVFinal
+import Srctools.Proofs.C16EntFinal
+import Srctools.Proofs.C16ShipEx
 import Srctools.Gen.Tok
 import Srctools.Gen.Fgdw
 /-!
@@ -524,6 +526,116 @@ example : KvGood Gen.Tok.tables curP (curCfg true) []
   choices := by intro h; exact absurd h (by decide +kernel)
 
 end TextLines
+
+/-! ## (iv, continued) whole entity definitions and files
+
+`exportEnt`/`parseEnt`, `exportFile`/`parseFile` (Model/C16Ent.lean) model `EntityDef.export` ↔ `EntityDef.parse`
+(header: `@Kind`, `base(…)`/`aliasof(…)`, helpers `name(arg, …)`, `= classname : "description"`; body; `@resources`
+block) and the entity part of `FGD.export` ↔ `FGD.parse_file`.  A helper is the generic pair (name, exported
+arguments): the typed helpers of `_fgd_helpers.py` re-normalise raw arguments, but their EXPORTED arguments are
+a fixed point (checked by the harness on every run).  `EntEnv`/`EntGood`/`FileGood` (Proofs/C16EntFinal.lean)
+are explicit decidable conditions; snippets, `@AutoVisgroup`, `@MaterialExclusion`, `@mapsize`, `@include`,
+`autovis(…)` and `@ExtendClass` merging are search-only. -/
+section WholeEntities
+open C16.KV
+variable {T : Tables} {o : Opts} {P : ParseCfg} {c : ExpCfg} {tab : EntTab}
+
+/-- **Whole entity.** `parseEnt (tokens (exportEnt e)) = ok (normEnt e)`: no tokenizer error, the first token
+is the `@Kind` keyword, and `EntityDef.parse` on the rest returns the normal form, leaving the last line feed
+and the end of input. -/
+theorem C16_entity_roundtrip (E : EntEnv T o P c) (fold : Char → List Char) {defined : List Str} {e : EntRec}
+    (G : EntGood T P c tab defined e) :
+    (run T o fold (exportEnt c tab P e)).err = none ∧
+    (tksOf (run T o fold (exportEnt c tab P e))).head? = some (kindTok tab e) ∧
+    parseEnt P tab defined e.kind (tksOf (run T o fold (exportEnt c tab P e))).tail
+      = .ok (normEnt c tab P e, [tkNl, tkEof]) :=
+  entity_roundtrip E fold G
+
+/-- The normal form of an entity: kind, bases, description, resources unchanged; alias flag kept when there
+are bases; helpers with the arguments the generic split gives; body items in written order with their own
+normal forms (`C16_kvdef_norm_fields`). -/
+theorem C16_entity_norm_fields (E : EntEnv T o P c) (e : EntRec) :
+    (normEnt c tab P e).kind = e.kind ∧ (normEnt c tab P e).bases = e.bases ∧
+    (normEnt c tab P e).desc = e.desc ∧
+    (normEnt c tab P e).alias = (!e.bases.isEmpty && e.alias) ∧
+    (normEnt c tab P e).helpers = e.helpers.map normHelper ∧
+    (normEnt c tab P e).res = e.res ∧
+    (normEnt c tab P e).items = (entItems P e).map (normItem P c) :=
+  normEnt_fields E e
+
+/-- A helper whose arguments contain no comma / surrounding blank (and is not the single empty argument)
+comes back identically. -/
+theorem C16_helper_identity {h : Helper} (ha : ∀ a ∈ h.args, ',' ∉ a ∧ strip a = a) (hne : h.args ≠ [[]])
+    (hn : h.name ≠ sHalfGridSnap) : normHelper h = h :=
+  normHelper_id ha hne hn
+
+/-- **File level (partial: entity definitions in sorted order).** The entity part of `FGD.export` tokenizes
+without error and the top-level loop of `FGD.parse_file` returns the normal forms of all entities, every
+`base(…)` resolving to a class defined earlier in the file. -/
+theorem C16_fgd_roundtrip_partial (E : EntEnv T o P c) (fold : Char → List Char) {ents : List EntRec}
+    (G : FileGood T P c tab ents) :
+    (run T o fold (exportFile c tab P ents)).err = none ∧
+    (let ts := tksOf (run T o fold (exportFile c tab P ents))
+     parseFile P tab (ts.length + 1) ts [] = .ok (ents.map (normEnt c tab P))) :=
+  fgd_roundtrip E fold G
+
+/-- `str.casefold` / `str.upper` on the ASCII letters (all that the written keywords, type names, class
+names of the shipped database and upper-case tags need). -/
+def asciiFold (ch : Char) : List Char := if 'A' ≤ ch ∧ ch ≤ 'Z' then [Char.ofNat (ch.toNat + 32)] else [ch]
+def asciiUp (ch : Char) : List Char := if 'a' ≤ ch ∧ ch ≤ 'z' then [Char.ofNat (ch.toNat - 32)] else [ch]
+def curPA : ParseCfg := { tt := Gen.Fgdw.typeTab, fold := asciiFold, up := asciiUp }
+
+/-- OBLIGATION on the current source (entity syntax): `@`-words of all entity kinds are bare strings that the
+parser maps back to the kind; `base`, `halfgridsnap` are helper types and `aliasof` is not; every resource
+type name is a bare string that `RESTYPE_BY_NAME` maps back; the keywords survive casefolding; every value
+type text is mapped back also under real casefolding. -/
+theorem C16_ent_gen_ok :
+    entTablesOK Gen.Tok.tables = true ∧
+    ((List.range Gen.Fgdw.entTab.kinds.length).all fun i =>
+        BareStr Gen.Tok.tables ('@' :: (Gen.Fgdw.entTab.kinds.getD i ([], [])).1) &&
+        decide (lookupKind curPA Gen.Fgdw.entTab ('@' :: (Gen.Fgdw.entTab.kinds.getD i ([], [])).1) = some i)) = true ∧
+    Gen.Fgdw.entTab.helperTypes.contains sBase = true ∧ Gen.Fgdw.entTab.helperTypes.contains sAliasof = false ∧
+    Gen.Fgdw.entTab.helperTypes.contains sHalfGridSnap = true ∧
+    ((List.range Gen.Fgdw.entTab.resNames.length).all fun i =>
+        (Gen.Fgdw.entTab.resNames.getD i []).isEmpty ||
+        (BareStr Gen.Tok.tables (Gen.Fgdw.entTab.resNames.getD i []) &&
+         decide (lookupRes curPA Gen.Fgdw.entTab (Gen.Fgdw.entTab.resNames.getD i []) = some i))) = true ∧
+    curPA.foldStr sInput = sInput ∧ curPA.foldStr sOutput = sOutput ∧ curPA.foldStr sResources = sResources ∧
+    (∀ label, CfgParseOK curPA (curCfg label)) ∧
+    ((List.range Gen.Fgdw.typeTab.values.length).all fun i => decide (TypeParseOK curPA (curCfg true) i)) = true := by
+  refine ⟨by decide +kernel, by decide +kernel, by decide +kernel, by decide +kernel, by decide +kernel,
+    by decide +kernel, by decide +kernel, by decide +kernel, by decide +kernel, ?_, by decide +kernel⟩
+  intro label
+  cases label <;> decide +kernel
+
+/-- The entity-level environment of the current source (real ASCII casefolding). -/
+theorem C16_entenv_current (label : Bool) :
+    EntEnv Gen.Tok.tables Gen.Fgdw.parseOpts curPA (curCfg label) where
+  env := { hT := rfl, tables := C16_kv_gen_ok.1, opts := C16_kv_gen_ok.2.1, cfg := C16_gen_ok.1,
+           empty := C16_gen_ok.2.1, ext := rfl, cfgP := C16_ent_gen_ok.2.2.2.2.2.2.2.2.2.1 label }
+  entTables := C16_ent_gen_ok.1
+  foldIn := C16_ent_gen_ok.2.2.2.2.2.2.1
+  foldOut := C16_ent_gen_ok.2.2.2.2.2.2.2.1
+  foldRes := C16_ent_gen_ok.2.2.2.2.2.2.2.2.1
+
+/-- Three entities of the SHIPPED database (`entityflame`, an alias with resources; `grenade`, keyvalues,
+inputs, outputs and resources; `env_pinch`) satisfy the hypotheses at the current source … -/
+theorem C16_shipped_examples_good :
+    EntGood Gen.Tok.tables curPA (curCfg true) Gen.Fgdw.entTab ["env_entity_igniter".toList] Ship.aliasEnt ∧
+    EntGood Gen.Tok.tables curPA (curCfg true) Gen.Fgdw.entTab ["_cbaseentity_".toList] Ship.resEnt ∧
+    EntGood Gen.Tok.tables curPA (curCfg true) Gen.Fgdw.entTab ["_cbaseentity_".toList] Ship.plainEnt := by
+  refine ⟨by decide +kernel, by decide +kernel, by decide +kernel⟩
+
+/-- … hence their exported text is parsed back to their normal form (instance of the theorem), and the
+normal form of `env_pinch` is the entity itself, item by item. -/
+theorem C16_shipped_example_roundtrip (fold : Char → List Char) :
+    parseEnt curPA Gen.Fgdw.entTab ["_cbaseentity_".toList] Ship.plainEnt.kind
+        (tksOf (run Gen.Tok.tables Gen.Fgdw.parseOpts fold
+          (exportEnt (curCfg true) Gen.Fgdw.entTab curPA Ship.plainEnt))).tail
+      = .ok (normEnt (curCfg true) Gen.Fgdw.entTab curPA Ship.plainEnt, [tkNl, tkEof]) :=
+  (entity_roundtrip (C16_entenv_current true) fold C16_shipped_examples_good.2.2).2.2
+
+end WholeEntities
 
 /-- Non-vacuity: a database with an alias chain across blocks and a cycle is well formed. -/
 example : C16.Lazy.WF C16.Lazy.exS := C16.Lazy.exS_wf
